@@ -398,6 +398,56 @@ func runScript(drv *lean.Driver, sc Script) M {
 
 // ---------------------------------------------------------------- parent
 
+// busyPhase: the worker's loop takes connect / disconnect events with priority at the top of every iteration, also
+// those that arrived while it was busy in Process.  A reconnect with the same id replaces the older connection; the old
+// handler's disconnect arrives late.  Whichever branch of the loop takes it, it must leave the replacement alone: the
+// replacement stays registered, open, and receives the next message addressed to the id.  The disconnect is issued
+// while a burst of messages to another connection keeps the worker busy, so both branches are exercised over the
+// trials; on a correct plugin the outcome does not depend on which one was.
+func busyPhase(trials int) (M, int) {
+	loop := poll.NewVerifLoop(16)
+	defer loop.Stop()
+	dummy := loop.NewConn("\x00barrier", "\x00", 1)
+	barrier := func() { loop.Disconnect(dummy) }
+	other := loop.NewConn("g2", "z", 64)
+	loop.Connect(other)
+	addr := func(g, id string) []byte { return []byte(fmt.Sprintf(`{"group":%q,"id":%q}`, g, id)) }
+	checked := 0
+	for i := 0; i < trials; i++ {
+		old := loop.NewConn("g", "a", 4)
+		loop.Connect(old)
+		neu := loop.NewConn("g", "a", 4)
+		loop.Connect(neu) // same id: replaces (and closes) the older connection
+		started, done := make(chan struct{}), make(chan struct{})
+		go func() {
+			for j := 0; j < 6; j++ {
+				loop.Send(&aio.Message{Type: message.Invoke, Data: addr("g2", "z"), Body: []byte("x"), Done: func(bool, error) {}})
+				if j == 0 {
+					close(started)
+				}
+			}
+			close(done)
+		}()
+		<-started
+		loop.Disconnect(old) // the old handler notices its closed channel and unregisters — late
+		<-done
+		barrier()
+		other.Drain()
+		var res []bool
+		loop.Send(&aio.Message{Type: message.Invoke, Data: addr("g", "a"), Body: []byte(fmt.Sprintf("m%d", i)), Done: func(ok bool, err error) { res = append(res, ok) }})
+		barrier()
+		bodies, closed := neu.Drain()
+		if closed || len(res) != 1 || !res[0] || len(bodies) != 1 || string(bodies[0]) != fmt.Sprintf("m%d", i) {
+			return M{"what": "a late disconnect of a replaced connection affected its replacement", "property_violation": true,
+				"diff": fmt.Sprintf("trial %d: connection g/a was replaced by a reconnect with the same id; after the old connection's disconnect (issued while the worker was busy) the replacement is closed=%v, the next message for g/a was reported %v and %d bodies reached the replacement", i, closed, res, len(bodies))}, checked
+		}
+		checked++
+		loop.Disconnect(neu)
+		barrier()
+	}
+	return nil, checked
+}
+
 func main() {
 	seed := flag.Int64("seed", 1, "")
 	nscripts := flag.Int("scripts", 50, "")
@@ -409,6 +459,7 @@ func main() {
 	corpus := flag.String("corpus", "", "")
 	child := flag.String("child", "", "run one script file and print the result (internal)")
 	hostile := flag.Bool("hostile", false, "include the JSON literal null as an address")
+	busy := flag.Int("busy", 40, "trials of the busy-worker phase (a late disconnect of a replaced connection while the worker is busy)")
 	flag.Parse()
 	if *child != "" {
 		b, err := os.ReadFile(*child)
@@ -551,6 +602,22 @@ func main() {
 				record(sc, res, fmt.Sprintf("seed=%d script=%d", *seed, s))
 				break
 			}
+		}
+	}
+	if *replay == "" && summary["disagreements"] == 0 {
+		info, n := busyPhase(*busy)
+		totals["busy_worker_trials"] = n
+		if info != nil {
+			path := filepath.Join(*work, "polldiff-divergence.json")
+			info["harness"] = nil
+			delete(info, "harness")
+			b, _ := json.MarshalIndent(M{"harness": "polldiff", "phase": "busy-worker", "result": info, "origin": fmt.Sprintf("busy-worker phase, %d trials", *busy)}, "", " ")
+			os.WriteFile(path, b, 0o644)
+			summary["disagreements"] = 1
+			summary["divergence_file"] = path
+			summary["divergence"] = info["what"]
+			summary["diff"] = fmt.Sprint(info["diff"])
+			summary["property_violation"] = true
 		}
 	}
 	totals["nontrivial"] = totals["send:delivered"] + totals["closed"] + totals["turned_away"]
